@@ -29,6 +29,8 @@ var c09Blocks = []string{
 	`<p>line one<br>line two</p>`,
 	`<img src="" srcset="">`,
 	`<img src="i3.png" srcset="/w_300,h_200/x.jpg 1x, /w_600,h_400/x.jpg 2x">`,
+	`<table><tr><td>cellx</td><td>celly</td></tr><tr><td><p>cellp</p></td><td>cellq</td></tr></table>`,
+	`<p>H<sub>2</sub>O is w<b>at</b>er, <span>D</span>rop cap</p>`,
 }
 
 // c09Srcset is the harness's own reading of a srcset attribute (the library's
